@@ -662,6 +662,32 @@ def prim_neg(x: fp.Real) -> tuple[fp.Real, fp.Real]:
     return (f, m)
 
 
+# ---- twins that build a context inside the program from a signed zero (fixed-point format without NaN:
+# NaN is replaced by that zero) ----
+@fp.fpy
+def sat_pos(x: fp.Real) -> tuple[fp.Real, fp.Real]:
+    with fp.FP64:
+        n = (x - x) / (x - x)
+        z = 0.0 * x
+    with fp.MPFixedContext(-2, fp.RM.RNE, nan_value=z):
+        a = n + 0
+    with fp.MPFixedContext(-3, fp.RM.RTZ, nan_value=z):
+        b = n * 1
+    return (a, b)
+
+
+@fp.fpy
+def sat_neg(x: fp.Real) -> tuple[fp.Real, fp.Real]:
+    with fp.FP64:
+        n = (x - x) / (x - x)
+        z = -0.0 * x
+    with fp.MPFixedContext(-2, fp.RM.RNE, nan_value=z):
+        a = n + 0
+    with fp.MPFixedContext(-3, fp.RM.RTZ, nan_value=z):
+        b = n * 1
+    return (a, b)
+
+
 # ---- programs nested deeply: one operator chain, as program generators and inlining produce them ----
 # `deep_chain` (a thousand terms) is nested deeper than the interpreter's default recursion limit lets
 # the library compile: evaluating it fails with RecursionError -- in every process, thread and history
@@ -740,6 +766,8 @@ def muladd16(a: fp.Real, b: fp.Real, c: fp.Real) -> tuple[fp.Real, fp.Real]:
 
 
 SIG = {
+    'sat_pos': ['pos'],
+    'sat_neg': ['pos'],
     'prim_pos': ['pos'],
     'prim_neg': ['pos'],
     'idx5': ['num'],
@@ -825,7 +853,7 @@ AMBIENT = ['extremes', 'use_table', 'use_pass_list', 'pinned32', 'pinned_rtz16',
 LOOPS = ['idx40', 'idx5', 'enum_w', 'idx12', 'idx_step', 'sum_enum', 'dot', 'alt_loop']
 
 # twins: derived copies that must not be taken for each other (the second pair differs in the sign of a zero)
-TWINS = [['q_a16', 'q_b8'], ['zs_pos', 'zs_neg'], ['prim_pos', 'prim_neg']]
+TWINS = [['q_a16', 'q_b8'], ['zs_pos', 'zs_neg'], ['prim_pos', 'prim_neg'], ['sat_pos', 'sat_neg']]
 
 # functions that pin their own context with @fp.fpy(ctx=...) (a common idiom): the caller's ctx= must not matter
 PINNED = ['pinned32', 'pinned_rtz16', 'calls_pinned']
@@ -846,7 +874,7 @@ BOUNDARY = RETURNS_LISTS + ['deep', 'mut_list', 'share_call', 'dot', 'sum_enum',
 # functions whose value under one context may meet what was kept from another: the context ladder
 LADDER = ['tenth', 'consts', 'circle', 'muladd', 'extremes', 'helper_noctx']
 
-SPECIAL = ['deep_chain', 'prim_neg', 'prim_pos', 'zs_neg', 'idx40', 'enum_w', 'zs_pos', 'idx_step', 'widen', 'slow_churn', 'chain100', 'fill', 'tally', 'litrow', 'circle', 'consts', 'muladd', 'muladd16', 'pinned32', 'narrow', 'extremes', 'tenth', 'use_table', 'uses_closure', 'deep', 'ret_param', 'via_prim', 'calls_failing',
+SPECIAL = ['deep_chain', 'sat_neg', 'sat_pos', 'prim_neg', 'prim_pos', 'zs_neg', 'idx40', 'enum_w', 'zs_pos', 'idx_step', 'widen', 'slow_churn', 'chain100', 'fill', 'tally', 'litrow', 'circle', 'consts', 'muladd', 'muladd16', 'pinned32', 'narrow', 'extremes', 'tenth', 'use_table', 'uses_closure', 'deep', 'ret_param', 'via_prim', 'calls_failing',
            'calls', 'pinned_rtz16', 'narrow_neg', 'tenth16', 'use_pass_list', 'shadowing', 'ident_pair', 'ret_pair',
            'via_picky', 'asserting', 'cap_num', 'calls_pinned', 'narrow_all', 'tenth32', 'mut_list', 'nested_lists',
            'share_call', 'indexer', 'exact_or_fail', 'trans', 'directed', 'ident', 'slices',
@@ -858,6 +886,8 @@ FAILING = ['asserting', 'indexer', 'exact_or_fail', 'calls_failing', 'via_picky'
 
 # strategies that may be applied to each function (name -> list of (strategy, kwargs))
 DERIVABLE = {
+    'sat_pos': [('simplify', {})],
+    'sat_neg': [('simplify', {})],
     'prim_pos': [('simplify', {})],
     'prim_neg': [('simplify', {})],
     'zs_pos': [('simplify', {})],
